@@ -4,11 +4,12 @@ coefficient, by the T.81 reference decoder `Model/Jpeg/Spec.lean`.
 Helper lemmas: `Proof/JpegBits.lean` (bit strings, stuffing, `emitBits` refinement),
 `Proof/JpegHuff.lean` (DECODE / RECEIVE / EXTEND, runs, ZRL, EOB).
 -/
-import WuffsVerif.Proof.JpegHuff
+import WuffsVerif.Proof.JpegHeader
+import WuffsVerif.Props.C18
 
 namespace WuffsVerif.Props.C18
 open WuffsVerif.Gen.C18 WuffsVerif.Jpeg WuffsVerif.Jpeg.Buf WuffsVerif.Jpeg.Bits WuffsVerif.Jpeg.Tab
-open WuffsVerif.Jpeg.Huff
+open WuffsVerif.Jpeg.Huff WuffsVerif.Jpeg.Scan WuffsVerif.Jpeg.Hdr
 
 /-- **Byte level = bit level** (`emitBits`, accumulator + 0xFF stuffing): every `emitBits` call
     with n ≤ 16 appends exactly the n low bits of v to the logical bit string — the bytes written
@@ -88,14 +89,198 @@ theorem entropy_roundtrip_block (e : Encoder) (out : Array Nat) (c : Nat) (b : B
 /-- non-vacuity: the hypotheses are met by the state right after a `Reset` -/
 example : Acc ({} : Encoder) 0 := ⟨by decide, by decide, by decide⟩
 
--- OPEN: entropy_roundtrip (whole file), DESIGN.md §2 C18:
---   ∀ size, colour type, valid tables, valid unit sequence of the required length,
---     Spec.decode (Reset's bytes ++ all AddN bytes) = some ⟨w, h, sampling, tables, quantised blocks⟩.
--- Proved so far: the per-block core above (every entropy-coding mechanism), the byte/bit
--- refinement of `emitBits`, unstuffing, table correspondence.  Missing: the MCU/unit iteration
--- across AddN calls with the final 1-bit padding, and the symbolic evaluation of the Spec's
--- marker parser on the header bytes.  The whole-file statement is checked on every run for
--- concrete files by the `specdecode` ops (Lean Spec.decode on real encoder output = inputs) and
--- by the independent Go decoder.
+-- The whole-file statement `entropy_roundtrip` (DESIGN.md §2 C18) is proved at the end of this file,
+-- from: `scan_roundtrip` (everything from the first entropy-coded byte to EOI, across all AddN
+-- calls), `Tab.specCodeTables_eq` (the code tables the Spec derives from the DHT bytes the encoder
+-- emits are the ones the encoder uses), `reset_ok_state` (unit count) and `Proof/JpegHeader.lean`
+-- (the Spec's marker parser evaluated on the header bytes written by `Reset`).
+
+theorem ones7 : bitsOf 0x7F 7 = [true, true, true, true, true, true, true] := by decide
+
+/-- **entropy_roundtrip, whole scan** (`scan_roundtrip`).  Take any Encoder state as `Reset`
+    leaves it (invariant `Inv`: valid tables, empty bit accumulator, predictors 0, no error,
+    colour type `ct`, `numAddsRemaining = n ≥ 1`) and any `n` valid units of `ct` blocks each.
+    Then every `AddN` call succeeds, and the bytes written by all calls together are
+    `stuff bytes ++ [0xFF, 0xD9]` where — exactly as the Spec's `decodeScan` proceeds —
+    the entropy-coded segment un-stuffs to `bytes` up to the EOI marker, and decoding `n` MCUs
+    from the bits of `bytes` with the code tables of the emitted DHT segments yields, block for
+    block, each coefficient divided by its quantisation factor rounded to nearest (natural
+    order), leaving fewer than 8 padding bits, all ones. -/
+theorem scan_roundtrip (ct : Nat) (hct3 : ct = 1 ∨ ct = 3 ∨ ct = 6) (e : Encoder) (us : List (List Block))
+    (hi : Inv e) (hb : e.bitsN = 0 ∧ e.bitsV = 0) (herr : e.hasReturnedError = false) (hct : e.colorType = ct)
+    (hp : e.prevDC0 = 0 ∧ e.prevDC1 = 0 ∧ e.prevDC2 = 0)
+    (hn : e.numAddsRemaining = us.length) (hne : us ≠ [])
+    (hus : ∀ u ∈ us, u.length = ct ∧ ∀ b ∈ u, blockIsValid b = true) :
+    ∃ (ws : List (Array Nat)) (bytes : List Nat) (pad : List Bool),
+      (runAdds ct e us).2 = ws.map Res.ok ∧
+      ws.flatMap Array.toList = stuff bytes ++ [255, 217] ∧
+      Spec.splitECS (ws.flatMap Array.toList) = (bytes, [255, 217]) ∧
+      Spec.decodeMCUs (planOf (whichComponents ct)) us.length (List.replicate (ncomp ct) 0) (Spec.bytesBits bytes) =
+        some (expectAll e ct us, pad) ∧
+      pad.length < 8 ∧ pad.all id = true := by
+  have hacc : Acc e 0 := ⟨by omega, by rw [hb.1]; decide, by rw [hb.2]; simp⟩
+  have hpr : PredsRel e (List.replicate (ncomp ct) 0) := by
+    refine ⟨by unfold ncomp; split <;> simp, fun c hc => ?_⟩
+    have : (List.replicate (ncomp ct) (0 : Int)).getD c 0 = 0 := by
+      rw [List.getD_eq_getElem?_getD, List.getElem?_replicate]; split <;> rfl
+    rw [this]
+    unfold Encoder.prevDC
+    split
+    · exact hp.1.symm
+    · split
+      · exact hp.2.1.symm
+      · exact hp.2.2.symm
+  obtain ⟨ws, bytes, p', n', X, h1, h2, h3, h4, h5⟩ :=
+    scan_gen ct hct3 us e (List.replicate (ncomp ct) 0) 0 hi hacc herr hct hn hpr (by simp) hus
+  simp only [hne, ↓reduceIte] at h2 h3
+  rw [hb.1, show bitsOf 0 0 = [] from rfl, List.nil_append, ones7] at h3
+  -- X ++ 1111111 = bits(bytes) ++ pending  ⇒  bits(bytes) = X ++ pad
+  have hlen : (bitsOf p' n').length = n' := bitsOf_length p' n'
+  obtain ⟨pad, hpad, hpl, hpa⟩ : ∃ pad, Spec.bytesBits bytes = X ++ pad ∧ pad.length < 8 ∧ pad.all id = true := by
+    rcases List.append_eq_append_iff.mp h3 with ⟨a', ha1, ha2⟩ | ⟨c', hc1, hc2⟩
+    · refine ⟨a', ha1, ?_, ?_⟩
+      · have := congrArg List.length ha2
+        simp only [List.length_append, bitsOf_length, List.length_cons, List.length_nil] at this
+        omega
+      · have hsub : ∀ x ∈ a', x = true := by
+          intro x hx
+          have : x ∈ a' ++ bitsOf p' n' := List.mem_append_left _ hx
+          rw [← ha2] at this
+          simpa using this
+        exact List.all_eq_true.mpr (fun x hx => by simp [hsub x hx])
+    · have hl := congrArg List.length hc2
+      simp only [List.length_append, bitsOf_length, List.length_cons, List.length_nil] at hl
+      have hc0 : c' = [] := List.eq_nil_of_length_eq_zero (by omega)
+      subst hc0
+      exact ⟨[], by simpa using hc1.symm, by simp, by simp⟩
+  refine ⟨ws, bytes, pad, h1, h2, ?_, ?_, hpl, hpa⟩
+  · rw [h2]; exact splitECS_stuff bytes 217 [] (by decide)
+  · rw [hpad]; exact h5 pad
+
+
+/-- after exactly `numAddsRemaining` valid units the Encoder has no error, expects no more units,
+    and the next `AddN` is `ErrTooManyAddNCalls` (and sticky afterwards, `add_after_error`) -/
+theorem units_then_too_many (ct : Nat) (hct3 : ct = 1 ∨ ct = 3 ∨ ct = 6) (us : List (List Block)) :
+    ∀ (e : Encoder) (preds : List Int) (p : Nat), Inv e → Acc e p → e.hasReturnedError = false →
+      e.colorType = ct → e.numAddsRemaining = us.length → PredsRel e preds → preds.length = ncomp ct →
+      (∀ u ∈ us, u.length = ct ∧ ∀ b ∈ u, blockIsValid b = true) →
+      (runAdds ct e us).1.numAddsRemaining = 0 ∧ (runAdds ct e us).1.hasReturnedError = false ∧
+      (runAdds ct e us).1.colorType = ct ∧
+      ∀ u wf, u.all blockIsValid = true → (add (runAdds ct e us).1 ct wf (some u)).2 = .err .tooManyAddNCalls := by
+  induction us with
+  | nil =>
+    intro e _ _ _ _ herr hct hk _ _ _
+    have hk0 : e.numAddsRemaining = 0 := by simpa using hk
+    refine ⟨hk0, herr, hct, fun u wf hu => ?_⟩
+    show (add e ct wf (some u)).2 = _
+    simp [add, herr, hct, addN, hu, hk0]
+  | cons u us ih =>
+    intro e preds p hi ha herr hct hk hpr hpl hus
+    have hu := hus u List.mem_cons_self
+    obtain ⟨w, bytes1, p1, X1, preds1, a1, a2, a3, a4, a5, a6, a7, a8, a9, a10, a11, a12, a13⟩ :=
+      add_unit e ct us.length u preds p hi ha herr hct hct3 hu.1 hu.2 (by simpa using hk) hpr hpl
+    exact ih (add e ct false (some u)).1 preds1 p1 a7 a8 a3 a4 a2 a9 (by rw [a10, hpl])
+      (fun u' hu' => hus u' (List.mem_cons_of_mem _ hu'))
+
+/-- **Reset, then the units** (`entropy_roundtrip_partial`): for every size in [1,65535]²,
+    colour type, valid table pair (or nil options) and every sequence of exactly
+    ⌈w/8⌉·⌈h/8⌉ (⌈w/16⌉·⌈h/16⌉ for 4:2:0) valid units, starting from any reachable Encoder:
+    `Reset` succeeds ⇒ all `AddN` calls succeed and the bytes they write are one entropy-coded
+    segment + EOI which the T.81 decoder reads back block for block as the rounded quotients.
+    (What is missing for the full `entropy_roundtrip` is only the Spec's parse of the header
+    bytes of `Reset` — see the OPEN note above.) -/
+theorem entropy_roundtrip_partial (e0 : Encoder) (ct : Nat) (w h : Int) (qs : Option (Quant × Quant))
+    (hdr : Array Nat) (us : List (List Block)) (hw : WF e0)
+    (hq : ∀ q0 q1, qs = some (q0, q1) → QBytes q0 ∧ QBytes q1)
+    (hok : (reset e0 false ct w h qs).2 = .ok hdr)
+    (hn : us.length = units ct w h)
+    (hus : ∀ u ∈ us, u.length = ct ∧ ∀ b ∈ u, blockIsValid b = true) :
+    ∃ (ws : List (Array Nat)) (bytes : List Nat) (pad : List Bool),
+      (runAdds ct (reset e0 false ct w h qs).1 us).2 = ws.map Res.ok ∧
+      ws.flatMap Array.toList = stuff bytes ++ [255, 217] ∧
+      Spec.splitECS (ws.flatMap Array.toList) = (bytes, [255, 217]) ∧
+      Spec.decodeMCUs (planOf (whichComponents ct)) (units ct w h) (List.replicate (ncomp ct) 0)
+          (Spec.bytesBits bytes) = some (expectAll (reset e0 false ct w h qs).1 ct us, pad) ∧
+      pad.length < 8 ∧ pad.all id = true := by
+  have hst := reset_ok_state e0 ct w h qs hdr hok
+  have hrd := reset_ok_ready e0 ct w h qs hdr hw hq hok
+  obtain ⟨h1, h2, h3, w1, w2, hh1, hh2, hct3⟩ := hst
+  have hne : us ≠ [] := by
+    intro hnil
+    rw [hnil] at hn
+    have hu : 0 < units ct w h := by
+      unfold units
+      split
+      · have : 0 < ((w + 15) / 16) * ((h + 15) / 16) := Int.mul_pos (by omega) (by omega)
+        omega
+      · have : 0 < ((w + 7) / 8) * ((h + 7) / 8) := Int.mul_pos (by omega) (by omega)
+        omega
+    simp at hn
+    omega
+  have := scan_roundtrip ct hct3 (reset e0 false ct w h qs).1 us hrd.1 hrd.2.1 h2 h3 hrd.2.2
+    (by rw [h1, hn]) hne hus
+  rw [hn] at this
+  exact this
+
+/-- the frame components a file of colour type `ct` must declare: component ids 1 (2, 3),
+    sampling factors 1×1 — 2×2 for the luma of 4:2:0 —, quantisation table 0 for luma, 1 for chroma -/
+def expectComps (ct : Nat) : List Spec.Component := if ct = 1 then [⟨1, 1, 1, 0⟩] else colorComps ct
+
+/-- the quantisation table of each component (natural order) -/
+def expectQtabs (e : Encoder) (ct : Nat) : List (List Nat) :=
+  if ct = 1 then [natTable e.quants0] else [natTable e.quants0, natTable e.quants1, natTable e.quants1]
+
+/-- **entropy_roundtrip** — the property's core, for the whole file.  For every reachable
+    Encoder, every size in [1, 65535]², colour type (gray, 4:4:4, 4:2:0), valid quantisation table
+    pair (or nil options) and every sequence of exactly ⌈w/8⌉·⌈h/8⌉ (⌈w/16⌉·⌈h/16⌉ for 4:2:0)
+    valid units: if `Reset` succeeds then every `AddN` succeeds, and the bytes of `Reset` followed
+    by the bytes of all `AddN` calls are a baseline JPEG which the T.81 reference decoder
+    (`Spec.decode`: SOI, DQT, SOF0, DHT, SOS, entropy-coded segment, EOI, nothing after) accepts,
+    declaring width `w`, height `h`, the sampling factors of the colour type and the given
+    quantisation tables, and whose blocks are, block for block in coding order, each coefficient
+    divided by its quantisation factor rounded to nearest (`expectAll`, natural order). -/
+theorem entropy_roundtrip (e0 : Encoder) (ct : Nat) (w h : Int) (qs : Option (Quant × Quant))
+    (hdr : Array Nat) (us : List (List Block)) (hw : WF e0)
+    (hq : ∀ q0 q1, qs = some (q0, q1) → QBytes q0 ∧ QBytes q1)
+    (hok : (reset e0 false ct w h qs).2 = .ok hdr)
+    (hn : us.length = units ct w h)
+    (hus : ∀ u ∈ us, u.length = ct ∧ ∀ b ∈ u, blockIsValid b = true) :
+    ∃ ws : List (Array Nat),
+      (runAdds ct (reset e0 false ct w h qs).1 us).2 = ws.map Res.ok ∧
+      Spec.decode (hdr.toList ++ ws.flatMap Array.toList) =
+        some ⟨w.toNat, h.toNat, expectComps ct, expectQtabs (reset e0 false ct w h qs).1 ct,
+          expectAll (reset e0 false ct w h qs).1 ct us⟩ := by
+  obtain ⟨ws, bytes, pad, r1, r2, r3, r4, r5, r6⟩ := entropy_roundtrip_partial e0 ct w h qs hdr us hw hq hok hn hus
+  obtain ⟨_, _, hct, w1, w2, h1, h2, hct3⟩ := reset_ok_state e0 ct w h qs hdr hok
+  refine ⟨ws, r1, ?_⟩
+  rw [reset_ok_header e0 ct w h qs hdr hok]
+  generalize reset e0 false ct w h qs = r at *
+  obtain ⟨e', res⟩ := r
+  simp only at hct r4 ⊢
+  have hu : units ct w h = unitsOf ct w h := rfl
+  by_cases hc1 : ct = 1
+  · subst hc1
+    rw [header_gray e' w h hct, parse_header_gray _ w h (by omega) w2 (by omega) h2]
+    rw [hu, ← numMCUs_gray w h (by omega) (by omega)] at r4
+    have := decodeScan_gray e'.quants0 w.toNat h.toNat _ bytes _ pad r3 (by simpa [ncomp] using r4) r5 r6
+    rw [this]
+    simp [expectComps, expectQtabs]
+  · have hc36 : ct = 3 ∨ ct = 6 := by omega
+    have hne : e'.colorType ≠ 1 := by rw [hct]; exact hc1
+    rw [header_color e' w h hne, hct, parse_header_color ct _ _ w h (by omega) w2 (by omega) h2]
+    rw [hu, ← numMCUs_color ct hc36 w h (by omega) (by omega)] at r4
+    have hn3 : ncomp ct = 3 := by simp [ncomp, hc1]
+    rw [hn3] at r4
+    have := decodeScan_color ct hc36 e'.quants0 e'.quants1 w.toNat h.toNat _ bytes _ pad r3 r4 r5 r6
+    rw [this]
+    simp [expectComps, expectQtabs, hc1]
+
+/-- non-vacuity of `entropy_roundtrip`: the zero-value Encoder is reachable (`WF`), `Reset` for an
+    8×8 gray image with nil options succeeds, it needs exactly one unit, and the all-zero block is
+    valid — so the hypotheses are jointly satisfiable -/
+example : WF ({} : Encoder) ∧
+    (match (reset {} false 1 8 8 none).2 with | .ok _ => true | _ => false) = true ∧
+    units 1 8 8 = 1 ∧ blockIsValid (Array.replicate 64 0) = true := by
+  refine ⟨fun h => by simp at h, by decide +kernel, by decide, by decide +kernel⟩
 
 end WuffsVerif.Props.C18
